@@ -177,6 +177,12 @@ func c23Get() *c23Set {
 }
 
 func c23Put(s *c23Set) {
+	for _, b := range s.backends {
+		if b.iter != nil {
+			b.iter.Release()
+			b.iter = nil
+		}
+	}
 	c23Pool.mu.Lock()
 	c23Pool.free = append(c23Pool.free, s)
 	c23Pool.mu.Unlock()
@@ -556,13 +562,25 @@ func TestVerif_C23(t *testing.T) {
 			"after every operation Has/Get of every key and a full iteration of every backend are compared with a plain-map model; states de-duplicated on the model state " +
 			"(contents, pending batch, open iterator snapshot); two start states (empty, 3 keys)")
 		r.Assume("leveldb's batch.DeleteRange is a documented fallback (deletes the keys present when it is called); it is checked against a model of that fallback, and its divergence from the other backends is reported as a known finding")
-		depth := mc.Pick(r, 3, 4)
-		for si, init := range []map[string]string{{}, {"a": "1", "ab": "2", "\xff": "3", "b": "4", "a\xff": "5"}} {
-			init := init
+		starts := []map[string]string{{}, {"a": "1", "ab": "2", "\xff": "3", "b": "4", "a\xff": "5"}}
+		type expl struct {
+			name  string
+			start int
+			depth int
+		}
+		// quick: empty start to depth 3, populated start to depth 2. thorough: both to depth 3 first (these complete),
+		// then the empty start to depth 4 for as long as the budget lasts (on-disk engines: ~1 ms per transition), so the
+		// completed bound is reported honestly when the last exploration is cut by the deadline.
+		plan := []expl{{"kv-start0", 0, 3}, {"kv-start1", 1, 2}}
+		if thorough {
+			plan = []expl{{"kv-start0", 0, 3}, {"kv-start1", 1, 3}, {"kv-start0-depth4", 0, 4}}
+		}
+		for _, e := range plan {
+			init := starts[e.start]
 			r.Explore(mc.Config{
-				Name:  fmt.Sprintf("kv-start%d", si),
+				Name:  e.name,
 				Ops:   names,
-				Depth: depth - si*mc.Pick(r, 1, 0), // quick: the populated start state one level shallower
+				Depth: e.depth,
 				New: func() mc.Sys {
 					set := c23Get()
 					set.reset(init)
@@ -574,6 +592,9 @@ func TestVerif_C23(t *testing.T) {
 				},
 				Close: func(s mc.Sys) { c23Put(s.(*c23Sys).set) },
 			})
+			if r.Expired() {
+				break
+			}
 		}
 		for id, w := range known.witness {
 			r.Violation(id, "leveldb batch.DeleteRange deletes the keys that are in the database when it is CALLED (fallback implementation), "+
@@ -581,6 +602,18 @@ func TestVerif_C23(t *testing.T) {
 		}
 		c23Pool.mu.Lock()
 		for _, s := range c23Pool.free {
+			// release whatever the last explored history left open before closing the engines
+			for _, b := range s.backends {
+				if b.iter != nil {
+					b.iter.Release()
+					b.iter = nil
+				}
+				if b.batch != nil {
+					b.batch.Reset()
+					b.batch.Close()
+					b.batch = nil
+				}
+			}
 			for _, c := range s.closers {
 				c()
 			}
